@@ -272,7 +272,9 @@ class Instance:
         if "leaf_object_species" in case:
             self.los = dict(case["leaf_object_species"])
         else:
-            self.los = infer_species(self.oleaves, self.snodes)
+            # name-derived assignment: the species are the extant ones (leaves of the species tree); a generated or
+            # given ancestral label that happens to spell like a leaf (S1 next to s1) is not a host of extant objects
+            self.los = infer_species(self.oleaves, [x for x in self.snodes if not self.schildren[x]])
         costs = dict(DEFAULT_COSTS)
         for k, v in (case.get("costs") or {}).items():
             costs[k] = norm_cost(v)
